@@ -136,6 +136,20 @@ Theorem C01_suffixed_check_is_stricter :
   forall b sfx r, 0 <= b -> 0 <= sfx -> 0 <= gL r -> passes b sfx r -> gL r < 2 ^ 18.
 Proof. exact passes_raw. Qed.
 
+
+(* ... and the client library hands exactly those values to the callers of a batch: caller k of the n callers whose requests were
+   sent as one request of count n gets the (n-1-k)-th value from the top of the answer (client/client.go processTSORequests /
+   finishTSORequest / addLogical, pinned in proof/C01_Skel.v), so what the theorems above say about the values of granted
+   answers holds for what callers of the client receive, and two callers of one batch never share a value *)
+Theorem C01_client_hands_out_the_granted_values :
+  forall b sfx r k, 0 <= b ->
+    client_value b sfx r k = value_of b sfx r (gcount r - 1 - k) /\
+    (forall j, j < k -> snd (client_value b sfx r j) < snd (client_value b sfx r k)).
+Proof.
+  intros b sfx r k Hb. split; [apply client_value_is_value_of; exact Hb|].
+  intros j Hjk. apply client_values_increase; assumption.
+Qed.
+
 (* the Global allocator's own width may grow over time (dc-locations joining) and must never shrink: with suffix 0, a later and
    larger raw value at an equal or larger width is larger (so are all values of a later batch, whose first raw value is above
    the earlier one). The code keeps the width when the last dc-location disappears (skel_gta_GenerateTSO_ok: the plain path
@@ -162,4 +176,5 @@ Print Assumptions C01_suffixed_values_ordered.
 Print Assumptions C01_suffixed_values_distinct_within_an_answer.
 Print Assumptions C01_suffixed_logical_fits.
 Print Assumptions C01_suffixed_check_is_stricter.
+Print Assumptions C01_client_hands_out_the_granted_values.
 Print Assumptions C01_global_width_may_only_grow.
